@@ -955,6 +955,14 @@ class CodeGenerator(NodeVisitor):
             )
             self.indent()
             self.write_commons()
+            if block.required:
+                # A required block that ends up being rendered was not
+                # overridden by a descendant, whichever template of the
+                # chain declared it.
+                self.writeline(
+                    f'raise TemplateRuntimeError("Required block {name!r} not found")',
+                    block,
+                )
             # It's important that we do not make this frame a child of the
             # toplevel template.  This would cause a variety of
             # interesting issues with identifier tracking.
